@@ -327,6 +327,9 @@ pub struct Cfg {
     /// Extra content every bail-out handler appends before its marker: (content, as Html).
     #[serde(default)]
     pub bail_out_payload: Option<(String, bool)>,
+    /// Text put inside every bail-out marker: handler i appends "\x01B{i}{suffix}\x02".
+    #[serde(default)]
+    pub bail_marker_suffix: String,
 }
 
 impl Default for Cfg {
@@ -343,6 +346,7 @@ impl Default for Cfg {
             bail_out_handlers: 0,
             fail_at: None,
             bail_out_payload: None,
+            bail_marker_suffix: String::new(),
         }
     }
 }
@@ -864,13 +868,14 @@ macro_rules! make_builder {
             for i in 0..cfg.bail_out_handlers {
                 let sh = shared.clone();
                 let payload = cfg.bail_out_payload.clone();
+                let suffix = cfg.bail_marker_suffix.clone();
                 settings = settings.append_bail_out_handler(
                     move |e: &RewritingError, b: &mut lol_html::html_content::BailOut<'_>| {
                         push(&sh, Ev::BailOut { idx: i, err: err_code(e) });
                         if let Some((c, h)) = &payload {
                             b.append(c, ct(*h));
                         }
-                        b.append(&format!("\x01B{i}\x02"), ContentType::Html);
+                        b.append(&format!("\x01B{i}{suffix}\x02"), ContentType::Html);
                     },
                 );
             }
